@@ -87,6 +87,12 @@ func runCase(seed uint64, caseNo int, rate int) caseOut {
 	}
 	ru := torsim.NewRunner()
 	ru.Name = fmt.Sprintf("c02-%d-%d", seed, caseNo)
+	switch x := r.Intn(100); {
+	case x < 12:
+		return runRaceCase(r, ru, rate)
+	case x < 20:
+		return runFuseCase(r, ru, rate)
+	}
 	ps, files, single := genLayout(r)
 	var total int64
 	for _, f := range files {
@@ -182,6 +188,8 @@ func runCase(seed uint64, caseNo int, rate int) caseOut {
 				ru.Exec(fmt.Sprintf("rd complete %d", cp))
 			case x < 60:
 				ru.Exec(fmt.Sprintf("rd complete %d", r.Intn(n)))
+			case x < 66:
+				ru.Exec(fmt.Sprintf("rd garbage %d", r.Intn(n)))
 			case x < 72:
 				ru.Exec(fmt.Sprintf("rd corrupt %d", cp))
 			case x < 84:
@@ -233,7 +241,17 @@ func runCase(seed uint64, caseNo int, rate int) caseOut {
 			}
 			ru.Exec(fmt.Sprintf("rd evict %d", i))
 		case x < 87:
-			ru.Exec(fmt.Sprintf("rd corrupt %d", r.Intn(n)))
+			if r.Chance(65) {
+				// a corrupting peer's blocks land in the piece after the cursor's (or
+				// anywhere): allocated, not verified
+				i := cp + 1
+				if i >= n || r.Chance(30) {
+					i = r.Intn(n)
+				}
+				ru.Exec(fmt.Sprintf("rd garbage %d", i))
+			} else {
+				ru.Exec(fmt.Sprintf("rd corrupt %d", r.Intn(n)))
+			}
 		case x < 90:
 			ru.Exec(fmt.Sprintf("rd close %d", rid))
 			if r.Chance(30) {
@@ -255,10 +273,15 @@ func runCase(seed uint64, caseNo int, rate int) caseOut {
 			if flen == 0 {
 				break
 			}
+			allThere := true
 			for i := first; i <= last; i++ {
-				if !ru.IsComplete(i) {
-					ru.Exec(fmt.Sprintf("rd complete %d", i))
+				for try := 0; try < 2 && !ru.IsComplete(i); try++ {
+					ru.Exec(fmt.Sprintf("rd complete %d", i)) // a piece holding garbage fails once
 				}
+				allThere = allThere && ru.IsComplete(i)
+			}
+			if !allThere {
+				break
 			}
 			a := int64(r.Intn(int(flen)))
 			b := a + int64(r.Intn(int(flen-a)))
@@ -278,6 +301,149 @@ func runCase(seed uint64, caseNo int, rate int) caseOut {
 	if ri, _ := cursor(); !ri.Blocked && !ri.Closed {
 		ru.Exec(fmt.Sprintf("rd close %d", rid))
 	}
+	ru.Close()
+	return caseOut{ru.Lines, ru.Viol, ru.Tags}
+}
+
+// runRaceCase: Reads whose TorRequest waits in the queue of a held event loop while pieces
+// are verified, evicted or corrupted; the TorHave is handled before or after the request.
+func runRaceCase(r *vhlib.Rand, ru *torsim.Runner, rate int) caseOut {
+	ps := r.PickInt(16384, 32768)
+	n := 3 + r.Intn(3)
+	total := int64(n*ps - r.PickInt(0, 1, 7000))
+	ru.Exec(fmt.Sprintf("rd new %d %d %d %d s:%d", ps, total, r.Intn(1000), rate, total))
+	if ru.S == nil {
+		return caseOut{ru.Lines, ru.Viol, ru.Tags}
+	}
+	n = ru.S.N
+	nr := 1 + r.Intn(2)
+	for rid := 0; rid < nr; rid++ {
+		ru.Exec(fmt.Sprintf("rdx open %d 0 %d", rid, total))
+	}
+	for cp := 0; cp < n && !torsim.Aborted.Load(); cp++ {
+		// every reader's cursor is at the start of piece cp
+		if r.Chance(25) && cp+1 < n {
+			ru.Exec(fmt.Sprintf("rdx garbage %d", cp+1))
+		}
+		ru.Exec("rdx hold")
+		for rid := 0; rid < nr; rid++ {
+			ru.Exec(fmt.Sprintf("rdx read %d %d", rid, ps))
+		}
+		switch r.Intn(6) {
+		case 0: // verified, notification handled BEFORE the waiting requests
+			ru.Exec(fmt.Sprintf("rdx fin %d", cp))
+			ru.Exec(fmt.Sprintf("rdx release h%d", cp))
+		case 1: // verified, notification queued BEHIND the requests
+			ru.Exec(fmt.Sprintf("rdx complete %d", cp))
+			ru.Exec("rdx release")
+		case 2: // hash failure while the requests wait
+			ru.Exec(fmt.Sprintf("rdx corrupt %d", cp))
+			ru.Exec("rdx release")
+		case 3: // verified then evicted before the requests are handled (stale notification)
+			ru.Exec(fmt.Sprintf("rdx fin %d", cp))
+			ru.Exec(fmt.Sprintf("rdx evict %d", cp))
+			ru.Exec(fmt.Sprintf("rdx release h%d", cp))
+		case 4: // notification first, and a later piece verified as well
+			ru.Exec(fmt.Sprintf("rdx fin %d", cp))
+			if cp+1 < n {
+				ru.Exec(fmt.Sprintf("rdx fin %d", cp+1))
+				ru.Exec(fmt.Sprintf("rdx release h%d h%d", cp+1, cp))
+			} else {
+				ru.Exec(fmt.Sprintf("rdx release h%d", cp))
+			}
+		default:
+			ru.Exec("rdx release")
+		}
+		ru.Exec("rdx settle")
+		// whoever is still parked (legitimately) gets the piece now
+		for try := 0; try < 2 && !ru.IsComplete(cp); try++ {
+			ru.Exec(fmt.Sprintf("rdx complete %d", cp))
+		}
+		ru.Exec("rdx settle")
+		if cp > 0 && r.Chance(40) {
+			ru.Exec(fmt.Sprintf("rdx evict %d", r.Intn(cp)))
+		}
+	}
+	for rid := 0; rid < nr; rid++ {
+		ru.Exec(fmt.Sprintf("rdx close %d", rid))
+	}
+	ru.Exec("rdx settle")
+	ru.Close()
+	return caseOut{ru.Lines, ru.Viol, ru.Tags}
+}
+
+// runFuseCase: 1-3 concurrent reads per handle through the real fuse node methods, some
+// blocked on missing pieces, with per-read contexts the harness cancels.
+func runFuseCase(r *vhlib.Rand, ru *torsim.Runner, rate int) caseOut {
+	ps, files, single := genLayout(r)
+	var total int64
+	for _, f := range files {
+		total += f
+	}
+	ru.Exec(fmt.Sprintf("rd new %d %d %d %d %s", ps, total, r.Intn(1000), rate, layoutArg(files, single)))
+	if ru.S == nil {
+		return caseOut{ru.Lines, ru.Viol, ru.Tags}
+	}
+	n := ru.S.N
+	for i := 0; i < n; i++ {
+		if r.Chance(45) {
+			ru.Exec(fmt.Sprintf("rdx complete %d", i))
+		}
+	}
+	fi := r.Intn(len(files))
+	flen := files[fi]
+	ru.Exec(fmt.Sprintf("rdx fopen 0 %d", fi))
+	next := 0
+	var out []int
+	rounds := 2 + r.Intn(3)
+	for k := 0; k < rounds && !torsim.Aborted.Load(); k++ {
+		nreads := 1 + r.Intn(3)
+		for j := 0; j < nreads; j++ {
+			off := int64(r.Intn(int(flen) + 1))
+			switch r.Intn(4) {
+			case 0:
+				off = 0
+			case 1:
+				off = flen - int64(r.Intn(int(flen)+1))/3
+			}
+			size := r.PickInt(1, 4096, 16384, ps, ps+5, 2*ps, 131072)
+			ru.Exec(fmt.Sprintf("rdx fread 0 %d %d %d", next, off, size))
+			out = append(out, next)
+			next++
+		}
+		for step := 0; step < 4; step++ {
+			switch x := r.Intn(100); {
+			case x < 35 && len(out) > 0:
+				j := r.Intn(len(out))
+				ru.Exec(fmt.Sprintf("rdx fcancel %d", out[j]))
+				out = append(out[:j], out[j+1:]...)
+			case x < 75:
+				ru.Exec(fmt.Sprintf("rdx complete %d", r.Intn(n)))
+			case x < 85:
+				ru.Exec(fmt.Sprintf("rdx evict %d", r.Intn(n)))
+			case x < 92:
+				ru.Exec(fmt.Sprintf("rdx garbage %d", r.Intn(n)))
+			default:
+				ru.Exec(fmt.Sprintf("rdx corrupt %d", r.Intn(n)))
+			}
+			ru.Exec("rdx fsettle")
+		}
+		// everything arrives: all reads of the handle must finish
+		if r.Chance(60) {
+			for i := 0; i < n; i++ {
+				for try := 0; try < 2 && !ru.IsComplete(i); try++ {
+					ru.Exec(fmt.Sprintf("rdx complete %d", i))
+				}
+			}
+			ru.Exec("rdx fsettle")
+			out = out[:0]
+		}
+	}
+	for _, id := range out {
+		ru.Exec(fmt.Sprintf("rdx fcancel %d", id))
+	}
+	ru.Exec("rdx fsettle")
+	ru.Exec("rdx frelease 0")
 	ru.Close()
 	return caseOut{ru.Lines, ru.Viol, ru.Tags}
 }
@@ -353,7 +519,7 @@ func flush(c *vhlib.Ctx, o caseOut, caseNo int) {
 	nontrivial := false
 	for t, n := range o.tags {
 		c.Rep.Branches[t] += n
-		if t == "read:block" || t == "read:wake" || t == "read:ret:eof" || t == "evict" {
+		if t == "read:block" || t == "read:wake" || t == "read:ret:eof" || t == "evict" || t == "x:settle" || t == "fuse:read" {
 			nontrivial = true
 		}
 	}
